@@ -358,9 +358,43 @@ def rule_broadcast(ctx):
                          '(guard target.size != 1): broadcasting onto Axis([42], \'s\') leaves the dummy label None instead of 42, and broadcast_arrays returns arrays with different axes',
                          node=e.node)
             continue
+        # decision table of the repeat step over (own axis is size 1, target axis is size 1, own label is the None placeholder):
+        # repeat <=> size-1 and (the target is longer, or the label is the placeholder)
+        def classify(a):
+            if a[0] == 'cmp' and a[1] in ('==', '!=') and a[3] == const(1) and a[2][0] == 'attr' and a[2][2] == 'size':
+                return ('S' if a[2][1][0] == 'sub' else 'T' if a[2][1][0] == 'elem' else None), a[1] == '!='
+            if a[0] == 'cmp' and a[1] in ('is', 'is not') and a[3] == T.CONST_NONE:
+                return 'N', a[1] == 'is not'
+            return None, False
+        reps = []
+        for q in evf.paths:
+            for e2 in q.calls('repeat'):
+                g = []
+                for a, pol in e2.guards:
+                    k, neg = classify(a)
+                    if k:
+                        g.append((k, pol != neg))
+                if g not in reps:
+                    reps.append(g)
+        wrong = None
+        for S_ in (True, False):
+            for T_ in (True, False):
+                for N_ in ((True, False) if S_ else (False,)):
+                    asg = {'S': S_, 'T': T_, 'N': N_}
+                    does = any(all(asg[k] == v for k, v in g) for g in reps)
+                    want = S_ and ((not T_) or N_)
+                    if does != want and wrong is None:
+                        wrong = (asg, does, want)
+        if wrong is not None:
+            asg, does, want = wrong
+            ctx.violated('R3', fi, 'repeat decision', 'for an axis of the array with size %s 1, a target axis of size %s 1 and an own label that %s the None placeholder, the axis is %s '
+                         'but must %s (a labelled size-1 axis is repeated along a longer target axis just like an inserted one: NumPy broadcasting)'
+                         % ('==' if asg['S'] else '!=', '==' if asg['T'] else '!=', 'is' if asg['N'] else 'is not', 'repeated' if does else 'not repeated',
+                            'be repeated' if want else 'be left alone'), node=e.node)
+            continue
         okb = True
     if okb:
-        ctx.holds('R3', 'broadcast: reshape(target names) then repeat singleton axes by name')
+        ctx.holds('R3', 'broadcast: reshape(target names) then repeat singleton axes by name (decision table over size-1 / target size-1 / placeholder)')
     # reshape early exit is order sensitive
     fi = ctx.fn(RS + 'reshape')
     ev = run(ctx, fi, mode='fork', max_paths=20000,
